@@ -1387,6 +1387,13 @@ func mayAlias(s *State, a, b *Expr) bool {
 		switch e.Op {
 		case "ia":
 			c, isC := e.Args[1].IsConst()
+			if !isC && s != nil {
+				// an index known to lie in a finite range touches only that
+				// range (a fill loop over 0..15 leaves octets 16.. alone)
+				if r := s.rangeOf(e.Args[1]); !r.Empty() && r.Lo() != negInf && r.Hi() != posInf && r.Lo() >= 0 && r.Hi()-r.Lo() <= 4096 {
+					return e.Args[0].Key, r.Lo(), r.Hi() + 1, true
+				}
+			}
 			return e.Args[0].Key, c, c + 1, isC
 		case "bea":
 			c, isC := e.Args[1].IsConst()
